@@ -106,6 +106,20 @@ fn range1(c: &[f64]) -> (f64, f64) {
     (lo, hi)
 }
 
+/// Witness predicate of finding C11-cubic-extremum-cancellation, for one coordinate of a cubic:
+/// the derivative's quadratic coefficient `a` (computed as lyon computes it, in `S`) is non-zero
+/// but so small that `-b ± sqrt(b² - 4ac)` cancels (`|4ac| <= b²/64`: at least 6 bits are lost).
+fn cancels1<S: Fl>(p0: S, p1: S, p2: S, p3: S) -> bool {
+    let three = S::of(3.0);
+    let a = three * (p3 + three * (p1 - p2) - p0);
+    let b = S::of(6.0) * (p2 - S::of(2.0) * p1 + p0);
+    let c = three * (p1 - p0);
+    a.f() != 0.0 && (4.0 * a.f() * c.f()).abs() <= b.f() * b.f() / 64.0
+}
+fn cancels<S: Fl>(c: &[Point<S>]) -> bool {
+    c.len() == 4 && (cancels1(c[0].x, c[1].x, c[2].x, c[3].x) || cancels1(c[0].y, c[1].y, c[2].y, c[3].y))
+}
+
 fn xs<S: Fl>(p: &[Point<S>]) -> Vec<f64> {
     p.iter().map(|q| q.x.f()).collect()
 }
@@ -248,9 +262,45 @@ fn bezier_oracle<S: Fl>(ob: &BezObs<S>, orc: &mut Oracle) {
     let cl = |c: &str| format!("{}.{}", name, c);
     let (bx0, bx1, by0, by1) = (ob.bbox.min.x.f(), ob.bbox.max.x.f(), ob.bbox.min.y.f(), ob.bbox.max.y.f());
 
-    // 1. the exact box contains every sample
-    let mut worst = 0.0f64;
-    let mut worst_t = 0.0;
+    // class of finding C11-cubic-extremum-cancellation (cubics only)
+    let cancel_class = if cancels(&ob.ctrl) { "deriv-cancellation" } else { "generic" };
+    // 0. (first, so that a wrong or missing root is reported as such) the reported local extrema
+    //    are the interior critical points: each lies in (0,1) and the derivative vanishes there up
+    //    to rounding; they come in increasing order; and between two sample points where the
+    //    derivative is significantly positive resp. negative a parameter is reported.
+    let denv = 64.0 * env;
+    for (l, c, ax) in [(&ob.lx, &cx, "x"), (&ob.ly, &cy, "y")] {
+        let clause = cl("local_extremum_t/critical-points");
+        for t in l.iter() {
+            let t = t.f();
+            let d = if t > 0.0 && t < 1.0 { dcast1(c, t) } else { f64::NAN };
+            orc.check(d.abs() <= denv, &clause, cancel_class, || {
+                format!("{} reported t={} (must be in (0,1)): derivative there={:e}, allowance {:e}", ax, t, d, denv)
+            });
+        }
+        orc.check(l.windows(2).all(|w| w[0].f() <= w[1].f()), &clause, cancel_class, || format!("{} not in increasing order {:?}", ax, l));
+        let mut last: Option<(f64, f64)> = None; // last significant sample (t, f'(t))
+        for i in 0..=NS {
+            let t = i as f64 / NS as f64;
+            let d = dcast1(c, t);
+            if d.abs() <= denv {
+                continue;
+            }
+            if let Some((t0, d0)) = last {
+                if d0 * d < 0.0 {
+                    let found = l.iter().any(|r| r.f() >= t0 && r.f() <= t);
+                    orc.check(found, &clause, cancel_class, || {
+                        format!("{}' changes sign between t={} ({:e}) and t={} ({:e}) but no extremum is reported there; reported {:?}", ax, t0, d0, t, d, l)
+                    });
+                }
+            }
+            last = Some((t, d));
+        }
+    }
+    // 1. the exact box contains every sample and the analytic extremes of both coordinates
+    let (rx, ry) = (range1(&cx), range1(&cy));
+    let mut worst = (bx0 - rx.0).max(rx.1 - bx1).max(by0 - ry.0).max(ry.1 - by1);
+    let mut worst_t = -1.0;
     for i in 0..=NS {
         let t = i as f64 / NS as f64;
         let (x, y) = (cast1(&cx, t), cast1(&cy, t));
@@ -260,15 +310,14 @@ fn bezier_oracle<S: Fl>(ob: &BezObs<S>, orc: &mut Oracle) {
             worst_t = t;
         }
     }
-    orc.check(worst <= env, &cl("bounding_box/contains"), "generic", || {
-        format!("sample t={} outside by {:e} env={:e} box=({},{})-({},{})", worst_t, worst, env, bx0, by0, bx1, by1)
+    orc.check(worst <= env, &cl("bounding_box/contains"), cancel_class, || {
+        format!("curve leaves the box by {:e} (env {:e}; sample t={}, -1 = analytic extreme) box=({},{})-({},{}) true extent x=[{},{}] y=[{},{}]", worst, env, worst_t, bx0, by0, bx1, by1, rx.0, rx.1, ry.0, ry.1)
     });
 
-    // 2. all four sides are touched: each side equals the true extreme of the coordinate
-    let (rx, ry) = (range1(&cx), range1(&cy));
-    let e = (bx0 - rx.0).abs().max((bx1 - rx.1).abs()).max((by0 - ry.0).abs()).max((by1 - ry.1).abs());
+    // 2. all four sides are touched: no side lies beyond the true extreme of its coordinate
+    let e = (rx.0 - bx0).max(bx1 - rx.1).max(ry.0 - by0).max(by1 - ry.1);
     orc.check(e <= env, &cl("bounding_box/tight"), "generic", || {
-        format!("box=({},{})-({},{}) reference x=[{},{}] y=[{},{}] err={:e} env={:e}", bx0, by0, bx1, by1, rx.0, rx.1, ry.0, ry.1, e, env)
+        format!("box=({},{})-({},{}) reference x=[{},{}] y=[{},{}] excess={:e} env={:e}", bx0, by0, bx1, by1, rx.0, rx.1, ry.0, ry.1, e, env)
     });
 
     // 3. fast box contains the exact box (and so the curve)
@@ -292,21 +341,6 @@ fn bezier_oracle<S: Fl>(ob: &BezObs<S>, orc: &mut Oracle) {
         orc.check(e <= env, &cl("extremum_t/extremal"), "generic", || {
             format!("t={:?} values x=({},{}) y=({},{}) reference x=[{},{}] y=[{},{}]", t, cast1(&cx, t[0]), cast1(&cx, t[1]), cast1(&cy, t[2]), cast1(&cy, t[3]), rx.0, rx.1, ry.0, ry.1)
         });
-    }
-
-    // 5. local extrema are critical points inside (0,1), reported in increasing order
-    let denv = 64.0 * env;
-    for (l, c, ax) in [(&ob.lx, &cx, "x"), (&ob.ly, &cy, "y")] {
-        for t in l.iter() {
-            let t = t.f();
-            orc.check(t > 0.0 && t < 1.0, &cl("local_extremum_t/in-open-range"), "generic", || format!("{} t={}", ax, t));
-            let d = dcast1(c, t);
-            // the parameter is a rounded root: |f'(t)| <= |f''| * ulp(t) + evaluation error
-            orc.check(d.abs() <= denv, &cl("local_extremum_t/critical"), "generic", || {
-                format!("{} t={} derivative={:e} env={:e}", ax, t, d, denv)
-            });
-        }
-        orc.check(l.windows(2).all(|w| w[0].f() <= w[1].f()), &cl("local_extremum_t/ordered"), "generic", || format!("{:?}", l));
     }
 
     // 6. is_*_monotonic: claimed monotone => samples monotone
@@ -368,6 +402,20 @@ fn gen_ctrl<S: Fl>(g: Gen, rng: &mut Rng, n: usize) -> (Vec<Point<S>>, &'static 
             v[2].x = S::of(a + s * (2.0 * r * r - r));
             v[3].x = S::of(a + s * (2.0 * r * r - r + (1.0 - r) * (1.0 - r)));
             kind = "x-double-root";
+        }
+        5 | 6 if n == 4 => {
+            // a quadratic raised to a cubic by lyon's own `to_cubic` (x' and y' are then linear up
+            // to rounding), half of the time mapped by a similarity as `fit_path` would do
+            let q = QuadraticBezierSegment { from: v[0], ctrl: v[1], to: v[2] };
+            let mut c = q.to_cubic();
+            if rng.chance(1, 2) {
+                let k = S::of(rng.uniform(0.3, 3.0));
+                let (dx, dy) = (S::of(rng.uniform(-10.0, 10.0)), S::of(rng.uniform(-10.0, 10.0)));
+                let m = |p: Point<S>| point(p.x * k + dx, p.y * k + dy);
+                c = CubicBezierSegment { from: m(c.from), ctrl1: m(c.ctrl1), ctrl2: m(c.ctrl2), to: m(c.to) };
+            }
+            v = vec![c.from, c.ctrl1, c.ctrl2, c.to];
+            kind = "elevated-quad";
         }
         4 if n == 4 => {
             // S-shaped: two extrema inside
@@ -552,7 +600,7 @@ fn cubic_case<S: Fl>(ctx: &mut Ctx) {
         s.for_each_local_x_extremum_t(&mut |_| nx += 1);
         let mut ny = 0;
         s.for_each_local_y_extremum_t(&mut |_| ny += 1);
-        let tag = format!("cubic {} {} {} ext={}{}", S::BITS, g.name(), kind, nx, ny);
+        let tag = format!("cubic {} {} {} ext={}{}{}", S::BITS, g.name(), kind, nx, ny, if cancels(&pts) { " cancel" } else { "" });
         (args, tag, move || {
             let q = |s: &CubicBezierSegment<S>| vec![s.from, s.ctrl1, s.ctrl2, s.to];
             let mut lx = Vec::new();
@@ -909,10 +957,11 @@ fn path_case(ctx: &mut Ctx) {
                 }
                 let (bx0, bx1, by0, by1) = (b.min.x.f(), b.max.x.f(), b.min.y.f(), b.max.y.f());
                 let e = (bx0 - x0).max(x1 - bx1).max(by0 - y0).max(y1 - by1);
-                orc.check(e <= env, "path.bounding_box/contains", "generic", || {
+                let cancel_class = if segs.iter().any(|s| cancels(s)) { "cubic-deriv-cancellation" } else { "generic" };
+                orc.check(e <= env, "path.bounding_box/contains", cancel_class, || {
                     format!("box=({},{})-({},{}) path extent x=[{},{}] y=[{},{}] outside by {:e}", bx0, by0, bx1, by1, x0, x1, y0, y1, e)
                 });
-                let e = (bx0 - x0).abs().max((x1 - bx1).abs()).max((by0 - y0).abs()).max((y1 - by1).abs());
+                let e = (x0 - bx0).max(bx1 - x1).max(y0 - by0).max(by1 - y1);
                 orc.check(e <= env, "path.bounding_box/tight", "generic", || {
                     format!("box=({},{})-({},{}) path extent x=[{},{}] y=[{},{}] err {:e}", bx0, by0, bx1, by1, x0, x1, y0, y1, e)
                 });
@@ -957,7 +1006,14 @@ fn fit_case(ctx: &mut Ctx) {
                 let scale = (dst.max.x - dst.min.x) as f64 / w as f64 + (dst.max.y - dst.min.y) as f64 / h as f64;
                 let env = 256.0 * f32::EPS * (m * (1.0 + scale) + maxabs(&[dst.min, dst.max]));
                 let e = (fb.min.x - dst.min.x).abs().max((fb.min.y - dst.min.y).abs()).max((fb.max.x - dst.max.x).abs()).max((fb.max.y - dst.max.y).abs()) as f64;
-                orc.check(e <= env, "fit.fit_path/box-is-destination", "generic", || format!("fitted={:?} dst={:?} err={:e} env={:e}", fb, dst, e, env));
+                let mut fitted_cancels = false;
+                for ev in fitted.iter() {
+                    if let lyon_path::Event::Cubic { from, ctrl1, ctrl2, to } = ev {
+                        fitted_cancels |= cancels(&[from, ctrl1, ctrl2, to]);
+                    }
+                }
+                let cancel_class = if fitted_cancels || path_segments(&evs).iter().any(|s| cancels(s)) { "cubic-deriv-cancellation" } else { "generic" };
+                orc.check(e <= env, "fit.fit_path/box-is-destination", cancel_class, || format!("fitted={:?} dst={:?} err={:e} env={:e}", fb, dst, e, env));
             }
             CaseOut { imp: o, orcl: orc.verdict }
         })
@@ -966,7 +1022,7 @@ fn fit_case(ctx: &mut Ctx) {
 
 fn main() {
     let mut ctx = Ctx::from_args("C11");
-    let n = ctx.n(700, 40000);
+    let n = ctx.n(6000, 120000);
     for _ in 0..n {
         quad_case::<f32>(&mut ctx);
         quad_case::<f64>(&mut ctx);
